@@ -35,59 +35,87 @@ def rangesOf : List Elem → Nat → List (Nat × Nat) × Nat
     let (more, n'') := rangesOf rest n'
     ((n, n' - 1) :: inner ++ more, n'')
 
-/-! ### Model of PostParser.cpp -/
+/-! ### Model of PostParser.cpp (GdlRule::AdjustOptRanges, GenerateOptRanges, PrevRangeSubsumes, GenerateOneRuleVersion)
+
+The ranges are the parallel vectors m_viritOptRangeStart / m_viritOptRangeEnd, here a list of pairs. The sort, the
+duplicate removal and the overlap test are written over indices as in the source; the recursion over the omit flags
+carries the ranges already decided (most recent first) with their flags, which is what the backwards loop of
+PrevRangeSubsumes walks. Lengths are end - start in natural numbers (a range never ends before it starts). -/
+
+abbrev Rg := Nat × Nat
+
+/-- `(start1 > start2) || (start1 == start2 && len1 < len2)` -/
+def outOfOrder (x y : Rg) : Bool := decide (x.1 > y.1) || (x.1 == y.1 && decide (x.2 - x.1 < y.2 - y.1))
+
+/-- All (i1, i2) with i1 < i2 < n in the order of the two nested loops. -/
+def idxPairs (n : Nat) : List (Nat × Nat) :=
+  (List.range (n - 1)).flatMap fun i1 => (List.range (n - (i1 + 1))).map fun k => (i1, i1 + 1 + k)
+
+def swapIf (a : List Rg) (p : Nat × Nat) : List Rg :=
+  let x := a.getD p.1 (0, 0)
+  let y := a.getD p.2 (0, 0)
+  if outOfOrder x y then (a.set p.1 y).set p.2 x else a
 
 /-- Exchange sort exactly as written (for i1, for i2 > i1: swap when out of order). -/
-def exchangeSort (rs : Array (Nat × Nat)) : Array (Nat × Nat) := Id.run do
-  let mut a := rs
-  for i1 in [0:a.size - 1] do
-    for i2 in [i1 + 1:a.size] do
-      let (s1, e1) := a[i1]!
-      let (s2, e2) := a[i2]!
-      if s1 > s2 ∨ (s1 == s2 ∧ e1 - s1 < e2 - s2) then
-        a := (a.set! i1 (s2, e2)).set! i2 (s1, e1)
-  return a
+def exchangeSort (rs : List Rg) : List Rg := (idxPairs rs.length).foldl swapIf rs
 
-/-- Removal of adjacent duplicates as written (index advances even after an erase). -/
-def removeAdjDups (rs : Array (Nat × Nat)) : Array (Nat × Nat) := Id.run do
-  let mut a := rs
-  let mut i := 0
-  while i + 1 < a.size do
-    if a[i]! == a[i + 1]! then
-      a := a.eraseIdx! (i + 1)
-    i := i + 1
-  return a
+/-- Removal of adjacent duplicates as written (the index advances even after an erase; the bound is re-read). -/
+def removeAdjDupsFrom : Nat → Nat → List Rg → List Rg
+  | 0, _, a => a
+  | f + 1, i, a =>
+    if i + 1 < a.length then
+      if a.getD i (0, 0) == a.getD (i + 1) (0, 0) then removeAdjDupsFrom f (i + 1) (a.eraseIdx (i + 1))
+      else removeAdjDupsFrom f (i + 1) a
+    else a
 
-def overlapError (a : Array (Nat × Nat)) : Bool :=
-  (List.range a.size).any fun i1 => (List.range a.size).any fun i2 =>
-    i1 < i2 ∧ (a[i2]!).1 ≤ (a[i1]!).2 ∧ (a[i2]!).2 > (a[i1]!).2
+def removeAdjDups (a : List Rg) : List Rg := removeAdjDupsFrom a.length 0 a
 
-def prevRangeSubsumes (a : Array (Nat × Nat)) (cur : Nat) : Option Nat :=
-  ((List.range cur).reverse.find? fun i => (a[i]!).1 ≤ (a[cur]!).1 ∧ (a[cur]!).2 ≤ (a[i]!).2)
+/-- `start2 <= end1 && end2 > end1` -/
+def overlaps (x y : Rg) : Bool := decide (y.1 ≤ x.2) && decide (y.2 > x.2)
 
-/-- The include-then-omit recursion; returns omit-flag vectors in generation order. -/
-def genOmits (a : Array (Nat × Nat)) : Nat → Array Bool → Nat → List (Array Bool)
-  | 0, _, _ => []
-  | fuel + 1, flags, cur =>
-    if cur ≥ a.size then [flags]
-    else
-      let incl :=
-        match prevRangeSubsumes a cur with
-        | some p => if flags[p]! then [] else genOmits a fuel flags (cur + 1)
-        | none => genOmits a fuel flags (cur + 1)
-      incl ++ genOmits a fuel (flags.set! cur true) (cur + 1)
+def overlapError (a : List Rg) : Bool :=
+  (idxPairs a.length).any fun p => overlaps (a.getD p.1 (0, 0)) (a.getD p.2 (0, 0))
 
-/-- Items kept for one omit vector. -/
-def keptItems (a : Array (Nat × Nat)) (nItems : Nat) (flags : Array Bool) : List Nat :=
-  (List.range nItems).filter fun i => !((List.range a.size).any fun r => flags[r]! ∧ (a[r]!).1 ≤ i ∧ i ≤ (a[r]!).2)
+/-- `start[irange] <= start[curr] && end[curr] <= end[irange]` -/
+def subsumes (x y : Rg) : Bool := decide (x.1 ≤ y.1) && decide (y.2 ≤ x.2)
+
+/-- The include-then-omit recursion. `done` = the ranges before the current one with their omit flags, most recent
+    first; PrevRangeSubsumes = the first of them that subsumes the current range. Returns, in generation order, the
+    complete flag assignments (in the order of the ranges). -/
+def forcedBy (done : List (Rg × Bool)) (r : Rg) : Bool :=
+  match done.find? (fun p => subsumes p.1 r) with
+  | some p => p.2          -- irangeSubsuming > -1 && vfOmitRange[irangeSubsuming]
+  | none => false
+
+def genOmits : List (Rg × Bool) → List Rg → List (List (Rg × Bool))
+  | done, [] => [done.reverse]
+  | done, r :: todo =>
+    (if forcedBy done r then [] else genOmits ((r, false) :: done) todo) ++ genOmits ((r, true) :: done) todo
+
+def covered (fl : List (Rg × Bool)) (i : Nat) : Bool := fl.any fun p => p.2 && decide (p.1.1 ≤ i) && decide (i ≤ p.1.2)
+
+/-- Items kept for one flag assignment. -/
+def keptItems (nItems : Nat) (fl : List (Rg × Bool)) : List Nat := (List.range nItems).filter fun i => !covered fl i
 
 /-- Model: the alternatives the compiler generates (the empty one is skipped with warning 1511). -/
-def modelAlternatives (ranges : List (Nat × Nat)) (nItems : Nat) : Option (List (List Nat)) :=
-  let a := removeAdjDups (exchangeSort ranges.toArray)
+def modelAlternatives (ranges : List Rg) (nItems : Nat) : Option (List (List Nat)) :=
+  let a := removeAdjDups (exchangeSort ranges)
   if overlapError a then none
-  else
-    let omits := genOmits a (a.size + 2) (Array.replicate a.size false) 0
-    some ((omits.map (keptItems a nItems)).filter (fun k => !k.isEmpty))
+  else some (((genOmits [] a).map (keptItems nItems)).filter (fun k => !k.isEmpty))
+
+def countItems : List Elem → Nat
+  | [] => 0
+  | .item _ :: rest => 1 + countItems rest
+  | .opt body :: rest => countItems body + countItems rest
+
+/-- Executable form of `Wf` (OptProof): items numbered by position from `n`, every optional group holds at least one
+    item and is not merely another group in brackets. For such trees `model_eq_spec_any_order` applies. -/
+def wfB : List Elem → Nat → Bool
+  | [], _ => true
+  | .item i :: rest, n => i == n && wfB rest (n + 1)
+  | .opt body :: rest, n =>
+    wfB body n && decide (0 < countItems body) && (match body with | [.opt _] => false | _ => true)
+      && wfB rest (n + countItems body)
 
 /-- A version of the rule is a rule only if it keeps at least one item that the rule modifies (an optional group of the
     context may hold the only `_`); the all-context versions are not generated (warning 1521), just as the version
